@@ -198,6 +198,7 @@ fn opts_for(spec: &Spec, faults: bool) -> Opts {
         misuse: spec.misuse,
         mon: spec.mon,
         validate: true,
+        validate_all: spec.validate_all,
     }
 }
 
@@ -278,6 +279,7 @@ pub fn analyze(cfg: &Cfg, spec: &Spec, faults: bool) -> Result<ConfigResult, Mac
         misuse: false,
         mon: spec.mon,
         validate: false,
+        validate_all: false,
     };
     for sv in seam_variants {
         let mut c2 = (*cfg).clone();
@@ -444,6 +446,7 @@ fn followups(cfg: &Rc<Cfg>, spec: &Spec, ex: &Explored, res: &mut ConfigResult) 
         misuse: false,
         mon: spec.mon,
         validate: false,
+        validate_all: false,
     };
     // same world, same follow-up evaluation; only the C08/C09 clauses look at what happened to each
     // job in the interrupted evaluation, so with them on the dispositions are part of the key
